@@ -126,3 +126,27 @@ pub fn with_keepalive<S: Strategy<Value = Case>>(s: S) -> impl Strategy<Value = 
         c
     })
 }
+
+/// directed family for window values far above the generated ones: the reading end advertises W (as opener or as acceptor) and
+/// stays idle while the other end writes W one-byte frames - all within the advertised window - and shuts down; then the reader
+/// wakes up and reads to end-of-stream. Every byte must arrive, nothing may be reset.
+pub const LARGE_WINDOWS: [u32; 5] = [300, 1000, 4097, 10_000, 70_000];
+pub const LARGE_WINDOW_CASES: u64 = 20;
+pub fn large_window_case(i: u64) -> Case {
+    let (w, side, writer_end) = (LARGE_WINDOWS[(i % 5) as usize], ((i / 5) % 2) as usize, (i / 10) as usize);
+    let reader_side = if writer_end == 0 { 1 - side } else { side };
+    let mut opts = [OptsSpec { rwnd: 3, thr: 1, ..OptsSpec::default() }, OptsSpec { rwnd: 3, thr: 1, ..OptsSpec::default() }];
+    opts[reader_side] = OptsSpec { rwnd: w, thr: 64, ..OptsSpec::default() };
+    let mut ends = [EndScript::default(), EndScript::default()];
+    let mut wr = vec![WOp::Write(1); w as usize];
+    wr.push(WOp::Shutdown);
+    ends[writer_end] = EndScript { w: wr, r: vec![ROp::ToEof(64)] };
+    ends[1 - writer_end] = EndScript { w: vec![WOp::Write(2), WOp::Shutdown], r: vec![ROp::Park(1), ROp::ToEof(4096)] };
+    Case {
+        opts,
+        streams: vec![StreamSpec { side, port: 1, pad: vec![], delay: 0, park: None, ends }],
+        events: vec![RawEvent { when: Trigger::Quiescent, what: What::Wake(1) }],
+        step_bound: 3_000_000,
+        ..Case::default()
+    }
+}
